@@ -20,9 +20,12 @@ fn collect_start_lost(a: &Analysis, c: usize) -> bool {
     a.collect_ids.get(&c).map(|id| a.lost_starts.contains(id)).unwrap_or(false)
 }
 
+/// the finish (2) / cancel (1) signal of collect c was parked behind a full ring and then lost in
+/// the exit flush of its thread with the ring still full: the only loss of a signal C09 permits
+/// ("while the thread lives")
 fn collect_signal_lost(a: &Analysis, c: usize, kind: u8) -> bool {
     match a.collect_ids.get(&c) {
-        Some(id) => a.cmds.iter().any(|x| x.kind == kind && x.collect == *id && x.lost),
+        Some(id) => a.cmds.iter().any(|x| x.kind == kind && x.collect == *id && x.lost && x.force && x.parked),
         None => false,
     }
 }
